@@ -1,19 +1,11 @@
-"""Per-property configuration of tools/check.py."""
-
-STD_TRUST = [
-    "Lean 4.33.0 kernel; axioms audited per theorem by `#print axioms` (allowed: propext, Classical.choice, Quot.sound)",
-    "hand-written Lean model of the anchored Rust code, tied to /repo by the correspondence run of this check (differential: reach bounded by the generators, distribution in coverage.input_distribution)",
-    "tools/check.py, tools/extract.py, harness/ (generation, dumping, canonicalisation, SplitMix64), the compiled gvdriver (Lean compiler + C toolchain)",
-]
-
-PROPS = {
-    "C19": {
-        "props_modules": ["C19"],
-        "level": "proof",
-        "tie": "NewlineCache queries (line number at every byte offset, line/column at every boundary, span_line_bytes on every boundary span) equal Model/Newline.lean on identical texts and chunkings",
-        "rule": "texts: fixed corpus + every text over {a,\\n,\\r,e-acute} up to length 4 (quick) / 6 (thorough) with every 3-piece chunking up to length 3 + random texts over an alphabet with LF, CR and 2/3/4-byte characters with random chunkings; per text every byte offset, boundary and boundary span is queried. non-trivial = contains a newline or a multi-byte character; distinct = distinct request line",
-        "nontrivial": lambda req, im: any(t in req[0].split(" ")[3:] for t in ("10", "233", "10084", "128512")),
-        "trusted_base": STD_TRUST + ["slice::binary_search modelled by its documented Ok/Err contract on strictly increasing slices"],
-        "assumptions": ["`src` passed to byte_to_line_num_and_col_num is the text that was fed (documented precondition)"],
-    },
-}
+"""Per-property configuration of tools/check.py: collected from tools/propcfg/Cnn.py."""
+import importlib, os, sys
+_d = os.path.dirname(os.path.abspath(__file__))
+sys.path.insert(0, _d)
+PROPS = {}
+MANIFESTS = {}
+for _f in sorted(os.listdir(os.path.join(_d, "propcfg"))):
+    if _f.startswith("C") and _f.endswith(".py"):
+        _m = importlib.import_module("propcfg." + _f[:-3])
+        PROPS[_f[:-3]] = _m.CONFIG
+        MANIFESTS[_f[:-3]] = _m.MANIFEST
